@@ -196,7 +196,7 @@ pub fn big_goal_opts(s: &mut Source, thorough: bool, next_var: &mut VarId, allow
                 2 => 150,
                 5 | 6 => 100,
                 7 => 60,
-                8 => 160,
+                8 => 110,
                 _ => cap_n,
             };
             let n = size(s, lim.min(cap_n));
